@@ -22,14 +22,14 @@ CHECKS = {
         technique="Lean 4 proof (partition invariants of the splitter state machines) + exhaustive short-string correspondence + reference tokenizer",
         ref="§4 C16"),
     "C05": dict(
-        text="Theorems C05_load_frame (for every splitter without header/footer: before = lines through the DDBEGIN line, after = lines from the DDEND line), C05_char_byte (char mode moves the last region byte, unchanged, in front of the suffix), C05_content_frame, C05_frame_minimize and C05_frame_pairs (every proposal and the final best of minimize / minimize-around / minimize-balanced keep before and after, for every test, clock and option setting). Tied to the code by loaders + all 7 strategies (+move) x 5 splitters on marker files with every terminator style; the monitor compares prefix/suffix (and the byte before DDEND in char mode) of every file presented to the test.",
+        text="Theorems C05_load_frame (for every splitter without header/footer: before = lines through the DDBEGIN line, after = lines from the DDEND line), C05_char_byte (char mode moves the last region byte, unchanged, in front of the suffix), C05_content_frame, C05_frame_minimize and C05_frame_pairs (every proposal and the final best of minimize / minimize-around / minimize-balanced keep before and after, for every test, clock and option setting; the pair strategies through the generic closed-predicate invariant of the pass loop). Tied to the code by loaders + all 7 strategies (+move) x 5 splitters on marker files with every terminator style; the monitor compares prefix/suffix (and the byte before DDEND in char mode) of every file presented to the test.",
         note=NOTE + "Brace collapsing (re-load of the collapsed text), the two rewriting strategies and the experimental move: monitored on the real code, not proved.",
         technique="Lean 4 proof (load spec + frame invariant through the strategy loops) + differential execution on marker files",
         ref="§4 C05"),
     "C13": dict(
-        text="Theorems C13_around_ends_after_quiet_pass / C13_balanced_ends_after_quiet_pass via pairsOuter_quiet: for ANY pass function and every test, with repeat last/always and no time limit the shared outer loop can only end right after a pass at chunk size <= max(min,1) in which no proposal was accepted. The inner half (a quiet pass at chunk size 1 proposes exactly the neighbour pairs / balanced atoms / atom+partner pairs named in the property) is not a theorem yet: it rests on the proposal-by-proposal correspondence of the Lean pass models with the real code and on the monitor, which checks the fixpoint on the final file against the verdict table under complete verdict trees for n <= 4/5 bracket-bearing atoms.",
-        note=NOTE + "Partial: inner-pass coverage is model+monitor, not proved.",
-        technique="Lean 4 proof (outer loop, induction on fuel) + complete-verdict-tree differential execution with an independent partner computation",
+        text="Theorems C13_around_fixpoint and C13_balanced_fixpoint: for EVERY deterministic test f, min = 1, repeat last/always, no time limit, any max >= 1, any clock, every well-formed testcase with non-empty atoms — in the final testcase of minimize-around the test rejects the file without the two neighbours of every atom that has both; in the final testcase of minimize-balanced (>= 2 atoms left) it rejects the file without atom j when j is balanced and without j and its partner otherwise. C13_partner_characterised: the partner search returns exactly the first later atom at which the running balance of (), [], {} is back to zero with no kind negative in between. Proof: outer loop ends after a quiet pass at chunk size 1 (pairsOuter_last_pass), a quiet pass proposes every such deletion (aroundPass_quiet / balPass_quiet), the global invariant 'every content tried was rejected or is at least as long as the best' and non-empty atoms make a de-duplicated proposal a rejected one; termination from C09_bound_pairs. The literal reading of 'partner' (balance may have been negative on the way) fails on the unchanged tree: theorem C13_literal_partner_counterexample + recorded finding partner-after-negative. Correspondence: complete verdict trees for bracket-bearing atoms n <= 4/5, oracle families, independent partner computation; balanced WITH the experimental move: monitor only.",
+        note=NOTE + "The experimental move is not modelled (monitor on the real code). One recorded finding (partner-after-negative).",
+        technique="Lean 4 proof (outer-loop and pass-loop induction rules, global tried-invariant, quiet-pass coverage, findRhs characterisation) + complete-verdict-tree differential execution with an independent partner computation",
         ref="§4 C13"),
     "C18": dict(
         text="Theorems C18_classify (for every timed-out flag and every integer return code: TIMEOUT iff timed out, NORMAL iff 0, CRASH iff negative / 77 / >= 2^31, ABNORMAL otherwise, return code hidden iff TIMEOUT, crashes iff CRASH, hangs iff TIMEOUT) and C18_capture (pipe and log-file capture both return exactly the bytes written before exit/kill, for every abstract child and limit). Tied to timed_run.py / crashes.py / hangs.py by real children: every exit code 0..255, every terminating signal, before/past the limit, outputs up to 1 MiB on both streams, both capture modes, pid liveness after return.",
@@ -52,13 +52,13 @@ CHECKS = {
         technique="Lean 4 proof (loop invariants: tried-set, last-sweep, termination measure) + differential execution of the real strategy",
         ref="§4 C03"),
     "C04": dict(
-        text="Theorem C04_deletion_minimize: for every test, option setting, clock and well-formed testcase, every proposal of the minimize model (tested or de-duplicated) and the final best is the original with reducible atoms deleted (same prefix/suffix, zipped parts a sub-list, identical non-reducible parts), and every proposal is best.rmslice lo hi with lo < hi <= len (the a <= b side condition of C07). minimize-around / minimize-balanced: differential monitor on the real code only until their models' theorems exist (see level_note). Correspondence: every reducible/non-reducible layout up to length 6/7 x 3 strategies x 6 option settings, plus the five real loaders.",
-        note=NOTE + "For minimize-around and minimize-balanced the deletion property currently rests on the monitor over the real code (their Lean models are not yet proved).",
-        technique="Lean 4 proof (eraseRanks sublist/filter lemmas + loop invariant) + exhaustive-layout differential execution",
+        text="Theorems C04_deletion_minimize and C04_deletion_pairs: for every test, option setting, clock and well-formed testcase, every proposal (tested or de-duplicated), the basis it was built on and the final best of minimize, minimize-around and minimize-balanced is the original with reducible atoms deleted (IsDel: same prefix/suffix, zipped (part, flag) list a sub-list, identical non-reducible parts); for minimize every proposal is moreover best.rmslice lo hi with lo < hi <= len (the a <= b side condition of C07). The pair strategies are handled by one generic invariant rule over the pass loop (any predicate closed under rmslice with ordered non-negative bounds). Correspondence: every reducible/non-reducible layout up to length 6/7 x 3 strategies x 6 option settings, plus the five real loaders; the monitor compares the BYTES the real dump() writes for each tested candidate with prefix + atoms + suffix.",
+        note=NOTE + "The experimental move is excluded by the property and not modelled.",
+        technique="Lean 4 proof (eraseRanks sublist/filter lemmas, loop invariant of minimize, generic closed-predicate invariant over the pair-strategy pass loop) + exhaustive-layout differential execution",
         ref="§4 C04"),
     "C09": dict(
-        text="Theorem C09_bound_minimize: against EVERY oracle (index- and content-dependent), every min, max >= 1, repeat mode, repeat-first, time limit and clock, the minimize model terminates without exhausting its fuel, flags no internal error and runs at most (n+1)*(n+ceil(log2 n)+2) tests (+1 initial check) — by a potential function (len + log2(chunk) + removed)*(n+1) + chunk_end that every iteration decreases. The other strategies' bounds are checked by the monitor on the real code under adversarial verdict scripts (always-yes/no, alternating, complete verdict trees for n <= 4, hill-climbing).",
-        note=NOTE + "around / balanced / collapse-brace and the rewriting strategies: bound checked by the monitor only (no theorem yet); replace-arguments-by-globals non-termination is a recorded finding.",
+        text="Theorems C09_bound_minimize and C09_bound_pairs: against EVERY oracle (index- and content-dependent: adversarial, inconsistent, always-yes), every min, max >= 1, repeat mode, time limit and clock, the models of minimize, minimize-around and minimize-balanced terminate without exhausting their fuel (outer loop and every pass), flag no internal error (incl. the `assert` of the balanced pass: invariant count(S,0,lhs)*chunk = chunk_start) and run at most (n+1)*(n+ceil(log2 n)+2) tests (+1 initial check). minimize: potential function (len + log2(chunk) + removed)*(n+1) + chunk_end; pairs: every pass moves a chunk index strictly forward (<= num_chunks tests), every accepted proposal strictly shortens the testcase, so at most n + log2(chunk0) + 1 passes. collapse-brace and the two rewriting strategies: model (collapse) / monitor only. Correspondence and monitor: 4 removal + 2 rewriting strategies under adversarial scripts, complete verdict trees n <= 4, hill climbing, every splitter and custom symbol cut sets through the brace collapse, deletions that form a marker word; watchdog for loops that spin without starting a test.",
+        note=NOTE + "collapse-brace (the re-load can change the number of atoms) and the rewriting strategies: bound checked by the monitor only; replace-arguments-by-globals non-termination is a recorded finding; the collapse re-load raising LithiumError was a genuine defect (fixed: e840551).",
         technique="Lean 4 proof (termination measure / potential function) + differential execution + adversarial verdict search",
         ref="§4 C09"),
     "C10": dict(
@@ -67,7 +67,7 @@ CHECKS = {
         technique="Lean 4 proof (exact core from 1-minimality + deletion invariant) + differential execution on (n, core) grids with the bound as monitor",
         ref="§4 C10"),
     "C14": dict(
-        text="Theorems C14_pow2 (is_power_of_two(k) iff k = 2^j, all integers), C14_process_args (start-up refuses exactly non-powers of two for the effective min/max; --chunk-size=n == min=max=n, repeat=never), C14_blocks (every minimize candidate = best minus one contiguous non-empty block; chunk size a power of two, <= min(max, lp2 n), non-increasing; block = chunk size unless it is the entire remainder), C14_deadline_minimize (no proposal once the clock passed start+limit). Resweep rule, min clause and the time limit of around/balanced(+move): monitor on the real code.",
+        text="Theorems C14_pow2 (is_power_of_two(k) iff k = 2^j, all integers), C14_process_args (start-up refuses exactly non-powers of two for the effective min/max; --chunk-size=n == min=max=n, repeat=never), C14_blocks (every minimize candidate = best minus one contiguous non-empty block; chunk size a power of two, <= min(max, lp2 n), non-increasing; block = chunk size unless it is the entire remainder), C14_deadline_minimize and C14_deadline_pairs (minimize, minimize-around and minimize-balanced make no proposal — hence start no test — once the clock has passed start+limit, for every test and clock). Resweep rule, min clause and the time limit of the experimental move: monitor on the real code (blocks are also checked on testcases with non-reducible parts between the atoms).",
         note=NOTE + "min > max is a recorded finding; --repeat-first-round counts as 'the first sweep removed something' (documented option). time.time() is replaced by a scripted clock.",
         technique="Lean 4 proof (proposal-log invariant over the minimize loop; arithmetic on bit_length) + differential execution under option/verdict/clock grids",
         ref="§4 C14"),
